@@ -125,7 +125,13 @@ def run_case(case, own, probe=False):
                           extra={'kind': 'exception', 'exc': type(e).__name__, 'where': where.name})
             v.stats = f.stats
             raise v
-        raise Aborted('library raised: ' + msg, f.stats)
+        # the model is well-posed and every call the harness makes is a documented one: a simulation that raises cannot
+        # exhibit the property (on the unchanged library no generated run raises)
+        v = Violation(own + '.x', 'exception escaped the simulation of a well-posed model: ' + msg, step=f.step_no,
+                      time=getattr(f.env, 'now', None),
+                      extra={'kind': 'exception', 'exc': type(e).__name__, 'where': where.name})
+        v.stats = f.stats
+        raise v
 
 
 # ---------------------------------------------------------------------------
